@@ -247,7 +247,9 @@ def kTopicsSorted (ms : List KMember) (snap : List (String × Nat)) : List Strin
 def kAssignRange (ms : List KMember) (snap : List (String × Nat)) : List Triple :=
   (kTopicsSorted ms snap).flatMap (kRangeTopic ms snap)
 
-/-- step 1: the prior target entries that are still valid (`kept`), per topic id. -/
+/-- the prior target entries of one member that are still valid (member subscribes, partition exists), per
+topic id — before the "already kept by another member" test of step 1. Used to classify inputs
+(`disjointPriors`); the assignor itself uses `keepMembers` below. -/
 def kKept (snap : List (String × Nat)) (m : KMember) : List (String × List Nat) :=
   m.target.filterMap fun e =>
     let k := e.2.filter fun p => (snap.lookup e.1).isSome && p < cnt snap e.1 && m.subs.contains e.1
@@ -256,6 +258,30 @@ def kKept (snap : List (String × Nat)) (m : KMember) : List (String × List Nat
 def flatTPs (l : List (String × List Nat)) : List TP := l.flatMap fun e => e.2.map fun p => (e.1, p)
 
 def kCount (l : List (String × List Nat)) : Nat := (l.map (·.2.length)).sum
+
+/-- step 1 for one prior target entry `(t, parts)`: a partition is kept when it is still valid (`ok`) and
+`assigned[(t,p)]` is not yet set (`seen`); keeping it sets `assigned`. Returns (kept, new `assigned`). -/
+def keepParts (ok : Nat → Bool) (t : String) : List TP → List Nat → List Nat × List TP
+  | seen, [] => ([], seen)
+  | seen, p :: ps =>
+    if ok p && !seen.contains (t, p) then
+      let r := keepParts ok t ((t, p) :: seen) ps
+      (p :: r.1, r.2)
+    else keepParts ok t seen ps
+
+/-- step 1 for one member: its prior target entries in turn (an entry with nothing kept is deleted). -/
+def keepEntries (snap : List (String × Nat)) (m : KMember) : List TP → List (String × List Nat) → List (String × List Nat) × List TP
+  | seen, [] => ([], seen)
+  | seen, e :: es =>
+    let r := keepParts (fun p => (snap.lookup e.1).isSome && p < cnt snap e.1 && m.subs.contains e.1) e.1 seen e.2
+    let r2 := keepEntries snap m r.2 es
+    (if r.1.isEmpty then r2.1 else (e.1, r.1) :: r2.1, r2.2)
+
+/-- step 1 over the members in `memberIDs` order: what each member keeps; a partition kept by an earlier
+member is not kept again. -/
+def keepMembers (snap : List (String × Nat)) : List TP → List KMember → List (List (String × List Nat))
+  | _, [] => []
+  | seen, m :: ms => (keepEntries snap m seen m.target).1 :: keepMembers snap (keepEntries snap m seen m.target).2 ms
 
 /-- step 2 shedding for one member: topic ids ascending, partitions removed from the tail.
 Returns (what stays, what is shed). -/
@@ -298,11 +324,10 @@ structure KUniform where
 
 /-- steps 1 and 2 for every member: (member, kept, (what stays, what is shed)). `allowedOf i` is the number of
 partitions member `i` may keep. -/
-def kPerMember (ms : List KMember) (snap : List (String × Nat)) (allowedOf : Nat → Nat) :
+def kPerMember (ms : List KMember) (kept : List (List (String × List Nat))) (allowedOf : Nat → Nat) :
     List (KMember × List (String × List Nat) × List (String × List Nat) × List TP) :=
-  ((indexFrom 0 ms).zip ms).map fun im =>
-    let k := kKept snap im.2
-    (im.2, k, kShed (sortBy (fun a b => !(b.1 < a.1)) k) (kCount k - allowedOf im.1))
+  ((indexFrom 0 ms).zip (ms.zip kept)).map fun im =>
+    (im.2.1, im.2.2, kShed (sortBy (fun a b => !(b.1 < a.1)) im.2.2) (kCount im.2.2 - allowedOf im.1))
 
 /-- steps 3 and 4 from the per-member results. -/
 def kFinish (ms : List KMember) (allTPs : List TP)
@@ -317,7 +342,8 @@ def kFinish (ms : List KMember) (allTPs : List TP)
 /-- `assignUniform` on sorted active members. -/
 def kAssignUniformParts (ms : List KMember) (snap : List (String × Nat)) : KUniform :=
   let allTPs := kAllTPs ms snap
-  let counts := ms.map fun m => kCount (kKept snap m)
+  let kept := keepMembers snap [] ms
+  let counts := kept.map kCount
   let minCount := allTPs.length / ms.length
   let extra := allTPs.length % ms.length
   -- sorted by count descending, member id ascending
@@ -327,7 +353,7 @@ def kAssignUniformParts (ms : List KMember) (snap : List (String × Nat)) : KUni
     match (indexFrom 0 order).zip order |>.find? (fun x => x.2.1 == i) with
     | some x => if x.1 < extra then minCount + 1 else minCount
     | none => minCount
-  kFinish ms allTPs (kPerMember ms snap allowedOf)
+  kFinish ms allTPs (kPerMember ms kept allowedOf)
 
 def kAssignUniform (ms : List KMember) (snap : List (String × Nat)) : List Triple :=
   let r := kAssignUniformParts ms snap
